@@ -339,7 +339,7 @@ func runC08(c *Ctx) {
 		ok := false
 		for _, call := range callsIn(fd.Decl.Body, false) {
 			if fn := calleeOf(fd.Info(), call); fn != nil && fn.Name() == "ScanStmts" && len(call.Args) == 1 {
-				ok = isStringOfBytes(fd.Info(), call.Args[0])
+				ok = isStringOfBytesIn(fd.Info(), fd.Decl.Body, call.Args[0])
 			}
 		}
 		c.Check("R08c", "FileStmtDecls|scans string(f.Bytes())", fd.Decl.Pos(), ok, "the driver scanner must be given string(f.Bytes()) unmodified (positions index the file)")
@@ -349,7 +349,7 @@ func runC08(c *Ctx) {
 		ast.Inspect(nf.Decl.Body, func(m ast.Node) bool {
 			if kv, isKV := m.(*ast.KeyValueExpr); isKV {
 				if id, isID := kv.Key.(*ast.Ident); isID && id.Name == "Text" {
-					ok = isStringOfBytes(nf.Info(), kv.Value)
+					ok = isStringOfBytesIn(nf.Info(), nf.Decl.Body, kv.Value)
 				}
 			}
 			return true
@@ -450,6 +450,46 @@ func isStringOfBytes(info *types.Info, e ast.Expr) bool {
 	}
 	se, ok := inner.Fun.(*ast.SelectorExpr)
 	return ok && se.Sel.Name == "Bytes" && len(inner.Args) == 0
+}
+
+// isStringOfBytesIn is isStringOfBytes that also looks through a local with a single definition.
+func isStringOfBytesIn(info *types.Info, body ast.Node, e ast.Expr) bool {
+	e = ast.Unparen(e)
+	if isStringOfBytes(info, e) {
+		return true
+	}
+	id, ok := e.(*ast.Ident)
+	if !ok {
+		return false
+	}
+	obj := info.ObjectOf(id)
+	var defs []ast.Expr
+	ast.Inspect(body, func(m ast.Node) bool {
+		switch x := m.(type) {
+		case *ast.AssignStmt:
+			for i, l := range x.Lhs {
+				if lid, ok := l.(*ast.Ident); ok && info.ObjectOf(lid) == obj {
+					if len(x.Lhs) == len(x.Rhs) {
+						defs = append(defs, x.Rhs[i])
+					} else {
+						defs = append(defs, nil)
+					}
+				}
+			}
+		case *ast.ValueSpec:
+			for i, nm := range x.Names {
+				if info.ObjectOf(nm) == obj {
+					if i < len(x.Values) {
+						defs = append(defs, x.Values[i])
+					} else {
+						defs = append(defs, nil)
+					}
+				}
+			}
+		}
+		return true
+	})
+	return len(defs) == 1 && defs[0] != nil && isStringOfBytes(info, ast.Unparen(defs[0]))
 }
 
 // ---- shapes
